@@ -232,3 +232,65 @@ func VerifC13ExitWhileParked() {
 		verifAssert(parkedStatus == 403, "a next parked before the exit/error report is refused once released, the report is final")
 	}
 }
+
+// Identifiers of an earlier generation are unknown identifiers: after a reset, requests that still
+// carry the identifier an external or an internal extension of the previous generation was given
+// are refused with 403 (next, init/error, exit/error), whatever state the new generation is in,
+// and do not touch its barriers (the invocation in progress completes normally).
+func VerifC13StaleIdentifier() {
+	f := newVerifFull(1, []string{"I"}, nil, 3000)
+	w := f.w
+	w.SetRuntimeScript(func(k int, api *rapid.VerifRuntimeAPI) bool {
+		// every runtime generation hosts an internal extension
+		ia := api.InternalExtAPI("internal0")
+		verifSpawnEnv(func() {
+			st, id, _ := ia.Register("internal0", []string{"INVOKE"})
+			for i := 0; st == 200 && i < 4 && !api.Dead(); i++ {
+				if s2, _ := ia.Next(id); s2 != 200 {
+					return
+				}
+			}
+		})
+		return false // the runtime itself is healthy
+	})
+	o := f.invoke()
+	verifAssert(o.err == nil, "first generation: healthy invocation")
+	old := append([]string(nil), w.ExtIDs()...)
+	// (the internal extension may have come too late to register: registration closes when the
+	// first invocation is delivered)
+	verifAssert(len(old) >= 1 && len(old) <= 2, "the external (and usually the internal) extension registered")
+	if len(old) == 2 {
+		verifReach("both-kinds")
+	}
+	f.s.Reset("ReleaseFail", 2000)
+	verifSettle()
+	base := w.CountWhat("got-invoke")
+	which := verifChoice(len(old), "whose old identifier")
+	kind := verifChoice(3, "stale request")
+	phase := verifChoice(2, "when")
+	verifSpawnEnv(func() {
+		if phase == 1 {
+			verifWaitUntil(func() bool { return w.CountWhat("got-invoke") > base })
+		} else {
+			verifWaitUntil(func() bool { return w.CountWhat("invoke-begin") > 1 })
+		}
+		var st int
+		switch kind {
+		case 0:
+			st = w.StaleExtNext(old[which])
+		case 1:
+			st = w.StaleExtExitError(old[which])
+		default:
+			st = w.StaleExtInitError(old[which])
+		}
+		verifAssert(st == 403, "a request carrying an identifier of an earlier generation is refused with 403")
+		verifReach("stale-refused")
+	})
+	o2 := f.invoke()
+	verifAssert(o2.err == nil, "the invocation of the new generation completes normally")
+	rs := w.RuntimeResponses()
+	verifAssert(o2.wr.writes == 1 && string(o2.wr.body) == rs[len(rs)-1], "and returns its own response")
+	verifSettle()
+	w.CheckEventGrammar()
+	verifReach("done")
+}
